@@ -436,7 +436,7 @@ class PhaseField(_IModel):
         tic = Tic()
 
         C = self.__material.C
-        if self.isHeterogeneous:
+        if self.__material.isHeterogeneous:
             C_e_pg = FeArray.broadcast(C, Ne, nPg, tensor_ndim=2)
         else:
             C_e_pg = FeArray.asfearray(C, True)
@@ -537,7 +537,11 @@ class PhaseField(_IModel):
             cM_e_pg = lamb * (Rm_e_pg * IxI) + 2 * mu * projM_e_pg
 
         elif "Strain" in self.split:
-            C_e_pg = FeArray.asfearray(material.C, True)
+            if material.isHeterogeneous:
+                Ne, nPg = Epsilon_e_pg.shape[:2]
+                C_e_pg = FeArray.broadcast(material.C, Ne, nPg, tensor_ndim=2)
+            else:
+                C_e_pg = FeArray.asfearray(material.C, True)
 
             projPTC = projP_e_pg.T @ C_e_pg
             projMTc = projM_e_pg.T @ C_e_pg
@@ -579,7 +583,7 @@ class PhaseField(_IModel):
         Ne, nPg = Epsilon_e_pg.shape[:2]
 
         C = material.C
-        if self.isHeterogeneous:
+        if material.isHeterogeneous:
             C_e_pg = FeArray.broadcast(C, Ne, nPg, tensor_ndim=2)
         else:
             C_e_pg = FeArray.asfearray(C, True)
@@ -693,6 +697,7 @@ class PhaseField(_IModel):
         tic.Tac("Split", "sqrt C and S", False)
 
         if material.isHeterogeneous:
+            C = FeArray.broadcast(C, Ne, nPg, tensor_ndim=2)
             sqrtC = FeArray.broadcast(sqrtC, Ne, nPg, tensor_ndim=2)
             inv_sqrtC = FeArray.broadcast(inv_sqrtC, Ne, nPg, tensor_ndim=2)
         else:
